@@ -1,9 +1,9 @@
 SPECIFICATION Spec
 CONSTANTS
   MaxB = 3
-  BigB = {2}
+  BigB = {}
   MemCap = 1
-  MaxCrash = 2
+  MaxCrash = 1
   MaxFile = 12
   Reuse = {TRUE, FALSE}
   AllowTorn = TRUE
@@ -17,7 +17,7 @@ CONSTANTS
   Bug_WriteErrorSwallowed = FALSE
   Bug_ManifestErrorSwallowed = FALSE
   Bug_FileCounterNotRestored = FALSE
-  Compaction = FALSE
+  Compaction = TRUE
   Bug_InputsDeletedBeforeManifest = FALSE
 INVARIANTS Durable RecoveryEnabled CurrentAlwaysValid DiskHoldsAcked
 CONSTRAINT Bound
